@@ -6,7 +6,8 @@ ID = "C08"
 PROP_FILE = "C08"
 RULE = ("the header space (quick: all 256 classes x 256 instructions with P1 in {0,3,7,8,9,255}; thorough: all 256^3) crossed with data lengths on "
         "every decision boundary (0, 1, 63, 64, 65, 66, 65+k and 65+k+-1 for k in {0,1,254,255}) and the four length encodings (short/extended, "
-        "with/without Le), random data, key-handle length byte agreeing and disagreeing with the data. The answer must equal the model's and an "
+        "with/without Le), random data, key-handle length byte agreeing and disagreeing with the data; every APDU through both entry points "
+        "(TryFrom<CommandView> and TryFrom<&Command<S>> for 24 buffer capacities S, including S equal to the data length). The answer must equal the model's and an "
         "independent Python transcription of the decision table. Non-trivial = distinct APDU")
 ASSUMPTIONS = ["APDUs that iso7816 0.1.4 itself rejects (class 0xFF, malformed Lc/Le) never reach the conversion; their framing error must agree with the model of parse_lengths"]
 TECHNIQUE = "Coq proof: conversion equals the U2F decision table for every APDU view, never panics; ISO 7816 framing round trip in all seven encodings (case 1, 2S, 3S, 4S, 2E, 3E, 4E) for every header, data field and Le, hence the decision table holds from raw bytes; control-byte table regenerated; differential run over headers x boundary lengths x 4 encodings with an independent oracle"
